@@ -19,7 +19,9 @@ fn fixture(name: &str) -> Vec<u8> {
 }
 
 fn build() -> &'static str {
-	if cfg!(feature = "aws") {
+	if cfg!(feature = "both") {
+		"both"
+	} else if cfg!(feature = "aws") {
 		"aws"
 	} else if cfg!(feature = "nocrypto") {
 		"nocrypto"
@@ -161,6 +163,63 @@ pub fn run(ctx: &mut Ctx) -> Report {
 					},
 					Err(e) => lines.push(format!("{} crypto-only (load-err {})", tag, err_name(&e))),
 				}
+			}
+		}
+	}
+	// P-521 is outside what the back ends have in common, but what the aws-lc-rs build signs with
+	// such a key — generated, or loaded through each entry point — verifies under OpenSSL all the same
+	#[cfg(feature = "aws")]
+	{
+		let k0 = KeyPair::generate_for(&PKCS_ECDSA_P521_SHA512).unwrap();
+		let der = k0.serialize_der();
+		let mut ks: Vec<(String, KeyPair)> = vec![("generated".into(), k0)];
+		for (loader, res) in crate::props::c01::loaded_keys(&PKCS_ECDSA_P521_SHA512, &der) {
+			match res {
+				Ok(k) => ks.push((loader, k)),
+				Err(e) => s.rep.violate(&format!("C16:p521-key-load:{}", loader), "a P-521 key the aws-lc-rs build exported does not load through this entry point", format!("{:?}", e)),
+			}
+		}
+		for (how, k) in ks {
+			let mut p = PCert::default_like();
+			p.serial = Some(vec![0x22]);
+			p.kid = Kid::Pre(vec![0x24; 20]);
+			s.rep.case(&format!("p521 {}", how), true);
+			if let Ok(c) = p.real().unwrap().self_signed(&k) {
+				verify_everywhere(&mut s, "cert", c.der(), &k);
+			}
+		}
+	}
+	// the crypto-less build reads issuer certificates too (x509-parser needs no back end): the
+	// import glue against the model with the back end switched off — in particular, a certificate
+	// without a subject key identifier cannot be used (there is no digest to compute one with)
+	#[cfg(feature = "nocrypto")]
+	{
+		let mut rng = Rng::new(s.ctx.seed ^ 0x16C);
+		let key = s.ctx.key(&format!("fx-{}", keyset[0].0));
+		for k in 0..(if s.ctx.thorough { 600 } else { 60 }) {
+			let mut p = gen_params(&mut rng);
+			p.serial = Some(vec![(k % 100) as u8 + 1, 9]);
+			p.kid = Kid::Pre(vec![k as u8; [20usize, 20, 1, 32, 0][k % 5]]);
+			p.ca = match k % 4 { 0 => Ca::Ca(None), 1 => Ca::Ca(Some((k % 7) as u8)), 2 => Ca::No, _ => Ca::ExplicitNo };
+			let Some(rp) = p.real() else { continue };
+			let Ok(Ok(cert)) = std::panic::catch_unwind(std::panic::AssertUnwindSafe(|| rp.self_signed(&key))) else { continue };
+			let der = cert.der().to_vec();
+			let line = format!("import-cert nocrypto {}", hex(&der));
+			let r = std::panic::catch_unwind(std::panic::AssertUnwindSafe(|| CertificateParams::from_ca_cert_der(&der.clone().into())));
+			let real = match &r {
+				Ok(Ok(ip)) => tagged("ok", &[PCert::of_real(ip).sexp()]),
+				Ok(Err(e)) => tagged("err", &[err_name(e)]),
+				Err(_) => "panic".to_string(),
+			};
+			let model = s.drv.ask(&line);
+			s.rep.case(&line, true);
+			s.rep.count(&format!("nocrypto_import:{}", real.split(' ').next().unwrap_or("").trim_start_matches('(')));
+			if real != model {
+				s.rep.disagree("C16:import-cert", "model (back end off) and the crypto-less build differ on CA certificate import", format!("request: {}\nreal:  {}\nmodel: {}", line, real, model));
+			}
+			let has_ski = der.windows(5).any(|w| w == [0x06, 0x03, 0x55, 0x1d, 0x0e]);
+			if let (Ok(Ok(ip)), false) = (&r, has_ski) {
+				s.rep.violate("C16:nocrypto-import-key-identifier", "the crypto-less build accepts an issuer certificate without a subject key identifier (it has no digest to derive one with): what it then issues carries a made-up authority key identifier", format!("certificate: {}\nkey identifier method after import: {:?}", hex(&der), ip.key_identifier_method));
 			}
 		}
 	}
